@@ -169,8 +169,14 @@ def gen(rng, prop, tier):
                     ops.append({'op': 'load_other_listing',
                                 'listing': rng.choice(['sorted', 'reversed', 'shuffled',
                                                        'rotated'])})
-                elif r < 0.75:
+                elif r < 0.68:
                     ops += [{'op': 'close'}, {'op': 'reload'}]
+                elif r < 0.75 and cfg['names']['times'] == 'ks':
+                    # the parameter file is edited between two sessions of one process (within the
+                    # same second: its modification time does not change)
+                    ops += [{'op': 'close'},
+                            {'op': 'rewrite_params', 'sr': rng.choice([12345.0, 20000.0, 40000.5])},
+                            {'op': 'reload'}]
                 elif r < 0.9:
                     ops += [{'op': 'close'},
                             {'op': 'remove_optional',
@@ -180,6 +186,8 @@ def gen(rng, prop, tier):
                 else:
                     ops.append({'op': 'dirty_reload'})
     elif prop == 'C05':
+        if not p['wm'] and rng.random() < 0.3:
+            cfg['wmi_only'] = True
         ops = [{'op': 'load'}]
         for _ in range(rng.randint(1, 10)):
             r = rng.random()
@@ -276,6 +284,10 @@ def gen(rng, prop, tier):
             p['feature_rows'] = False
             if cfg['nloc_f'] is None:
                 cfg['nloc_f'] = rng.randint(2, min(nc, 6))
+            if rng.random() < 0.15:
+                # a row table is there, and it lists every spike
+                p['feature_rows'] = True
+                cfg['feat_rows_complete'] = True
         if rng.random() < 0.5:
             cfg['curation'] = world.gen_curation_ops(rng, rng.randint(1, 4))
         ops = [{'op': 'load'}]
@@ -320,6 +332,8 @@ def gen(rng, prop, tier):
                               else rng.choice([0, -1]), 'permute_map': rng.random() < 0.5}
             cfg['knobs']['chunk'] = rng.choice([5, 11, 50, 200])
         cfg['dtypes']['times'] = rng.choice(['uint64', 'uint64', 'int64', 'int32', 'uint32'])
+        if p['raw'] and rng.random() < 0.1:
+            cfg['decoy_cwd'] = True
         if rng.random() < 0.08:
             # a single template owns every spike (the others are stored but unused)
             keep = rng.randrange(nt)
@@ -1487,7 +1501,10 @@ class DatasetWorld(object):
         tp = ctx.real('templates_probes', lambda: m.templates_probes, owners=('C09',))
         ctx.check(_aeq(tp, R.probes[np.asarray(m.templates_channels)]), 'templates-probes')
         # depths
-        if g.pc_features is not None and g.feat_rows is None:
+        complete_rows = g.feat_rows is not None and len(g.feat_rows) == cfg['ns']
+        if complete_rows:
+            ctx.probe('complete_feature_row_table')
+        if g.pc_features is not None and (g.feat_rows is None or complete_rows):
             d = ctx.real('get_depths', m.get_depths, owners=('C09',))
             exp = R.depths()
             ctx.probe('depths')
@@ -1896,6 +1913,20 @@ def run_ops(plan, ctx, cfg):
         elif k == 'remove_optional':
             if w.model is None:
                 w.remove_optional(op['what'])
+        elif k == 'rewrite_params':
+            if w.model is None and w.cfg['names']['times'] == 'ks' and w.g.alf_times is None \
+                    and not (w.cfg.get('raw') and w.cfg['raw'].get('format') == 'cbin'):
+                # (a compressed recording carries its own sampling rate in its metadata file)
+                pth = w.params
+                st_ = os.stat(pth)
+                lines_ = open(pth).read().split('\n')
+                lines_ = [('sample_rate = %r' % op['sr']) if l.startswith('sample_rate') else l
+                          for l in lines_]
+                open(pth, 'w').write('\n'.join(lines_))
+                os.utime(pth, ns=(st_.st_atime_ns, st_.st_mtime_ns))
+                w.g.sr = op['sr']
+                ctx.op('rewrite_params')
+                ctx.probe('params_rewritten_between_sessions')
         elif k == 'remove_raw':
             if w.model is None and w.store == 'ok' and w.A is not None:
                 for f in list(w.dir.iterdir()):
